@@ -382,9 +382,12 @@ pub fn gen_timespan(r: &mut Rng, cfg: &GenCfg, canonical: bool) -> TimeSpan {
 
 // (the grammar allows any character but '"' in a comment: a backslash, a tab, a decomposed accent
 // (combining mark), a zero-width space, an apostrophe, CJK and an emoji are part of the pool)
-pub const COMMENT_POOL: [&str; 20] = [
+pub const COMMENT_POOL: [&str; 30] = [
     "c", "x", "by appointment", "a, b", "b", "a", "on call", "Ring the bell", "été", "x, y", "  spaced ", "closed for lunch; really",
     "back\\slash", "tab\there", "ferme\u{301}", "zero\u{200b}width", "l'été", "営業中", "open 🙂", "\\",
+    // typographic look-alikes of syntax characters: en / em dash, minus, no-break space, full-width
+    // colon and digits, curly quotes, a comma without a space, two comments that join to a third
+    "8\u{2013}10 only", "a\u{2014}b", "\u{2212}5", "no\u{a0}break", "10\u{ff1a}00\u{ff0d}\u{ff11}\u{ff12}", "\u{201c}quoted\u{201d}", "a,b", "b, a", "a, b, c", "Mo-Fr 10:00-12:00",
 ];
 
 pub fn gen_comments(r: &mut Rng, cfg: &GenCfg, allow_two: bool) -> UniqueSortedVec<Arc<str>> {
